@@ -29,8 +29,12 @@ class Ctx:
         return np.random.default_rng(common.derive_seed(self.seed, self.shard, *salt))
 
 
+LAST_CASE = [None]
+
+
 def safe_check(prop, case):
     """Run check_case; library exceptions on valid inputs become violations."""
+    LAST_CASE[0] = case
     try:
         with warnings.catch_warnings():
             warnings.simplefilter("ignore")
@@ -164,6 +168,11 @@ def main():
         tb = traceback.format_exc()
         with open(out_path, "w") as f:
             json.dump({"harness_error": tb}, f)
+        try:
+            with open(out_path + ".lastcase.json", "w") as f:
+                f.write(common.jdump({"case": LAST_CASE[0]}))
+        except Exception:  # noqa: BLE001
+            pass
         sys.stderr.write(tb)
         sys.exit(2)
 
